@@ -483,7 +483,10 @@ def single_and_enum_forms(ctx, rng, n):
 
 
 def union_bits(ctx, rng):
-    """Bit-field members of a union: whatever unit rule applies there, a parsed value lies in [0, 2^bits)."""
+    """Bit-field members of a union: every member starts a storage unit of its own at the union's start, so it is the
+    first `bits` bits of that unit in the endian-defined order; a parsed value lies in [0, 2^bits); an assignment
+    writes the member's bits (the rest of its unit as zero) and is seen by the other members; what does not fit is
+    refused."""
     for st, size in (("uint8", 1), ("uint16", 2), ("uint32", 4)):
         for endian in "<>":
             b1, b2 = rng.randint(1, size * 8 - 1), rng.randint(1, size * 8 - 1)
@@ -498,9 +501,37 @@ def union_bits(ctx, rng):
             except Exception as e:  # noqa: BLE001
                 ctx.event("union_bit_fields_rejected")   # refusing them is fine
                 continue
+            unit = int.from_bytes(raw, "little" if endian == "<" else "big")
+            wa = unit & ((1 << b1) - 1) if endian == "<" else unit >> (size * 8 - b1)
+            wb = unit & ((1 << b2) - 1) if endian == "<" else unit >> (size * 8 - b2)
             if not (0 <= a < (1 << b1) and 0 <= b < (1 << b2)):
-                ctx.violation("union-bits", "K8:bit-field-member-of-a-union-ignores-its-width",
+                ctx.violation("union-bits", "bit-field-member-of-a-union-ignores-its-width",
                               {"text": text, "endian": endian, "raw": raw.hex(), "a": a, "b": b, "workload": "union-bits"})
+                continue
+            if (a, b) != (wa, wb):
+                ctx.violation("union-bits", "bit-field-member-of-a-union-is-not-the-first-bits-of-its-unit",
+                              {"text": text, "endian": endian, "raw": raw.hex(), "got": [a, b], "want": [wa, wb],
+                               "workload": "union-bits"})
+                continue
+            try:
+                nv = (1 << b1) - 1
+                u.a = nv
+                image = nv if endian == "<" else nv << (size * 8 - b1)
+                wb2 = image & ((1 << b2) - 1) if endian == "<" else image >> (size * 8 - b2)
+                ok = int(u.a) == nv and int(u.b) == wb2 and u.dumps() == image.to_bytes(size, "little" if endian == "<" else "big")
+                try:
+                    u.a = 1 << b1
+                    ok = False
+                except Exception:  # noqa: BLE001
+                    ok = ok and int(u.a) == nv
+            except Exception as e:  # noqa: BLE001
+                ctx.violation("union-bits", f"bit-field-member-assignment-raises:{type(e).__name__}",
+                              {"text": text, "endian": endian, "error": lib.exc_sig(e), "workload": "union-bits"})
+                continue
+            if not ok:
+                ctx.violation("union-bits", "bit-field-member-assignment-not-coherent",
+                              {"text": text, "endian": endian, "raw": raw.hex(), "a": int(u.a), "b": int(u.b),
+                               "dump": u.dumps().hex(), "workload": "union-bits"})
             else:
                 ctx.event("union_bit_fields_in_range")
 
